@@ -102,7 +102,7 @@ def run(chk):
     for c in cases:
         # quick: every program under ansi, the sqlparse analyzer and a random third of the other dialects - all dialects every run
         ds = allds if not quick else rnd.sample(allds, len(allds) // 3)
-        wop = rnd.choice(["in", "in", "exists", "in_with_bracket", "all"]) if any(e["e"] == "where" for e in c["prog"]) else "in"
+        wop = rnd.choice(["in", "in", "exists", "in_with_bracket", "all", "nested_bool"]) if any(e["e"] == "where" for e in c["prog"]) else "in"
         for d in ["ansi"] + ds + ["non-validating"]:
             jobs.append({"prog": c["prog"], "dialect": d, "check_accept": d != "non-validating", "opts": {"where_op": wop}})
             owner.append(c)
